@@ -99,6 +99,9 @@ def gen_number(rng):
     return s
 
 
+RAW_HASH_ZERO_KEY = "cgrypreuRdaypnax"
+
+
 def gen_doc(rng, depth=0, maxdepth=4, escapes=True, container=True):
     r = rng.random()
     if container or (depth < maxdepth and r < 0.35):
@@ -110,6 +113,9 @@ def gen_doc(rng, depth=0, maxdepth=4, escapes=True, container=True):
         for _ in range(n):
             if members and rng.random() < 0.15:
                 k = rng.choice(members)[0]          # duplicate key
+            elif rng.random() < 0.02:
+                # a name whose hash, before StringUtils::Hash forces the top bit, is 0 (item.Hash == 0 marks a removed entry)
+                k = [("raw", ord(c)) for c in RAW_HASH_ZERO_KEY]
             else:
                 k = gen_pieces(rng, 4, escapes)
             members.append((k, gen_doc(rng, depth + 1, maxdepth, escapes, False)))
